@@ -231,9 +231,9 @@ def run_check(prop, tier, stages, rule, level="model_checking", assumptions=None
 
 C01_FAMILIES = {
     "quick": [("arith", 4), ("logic", 4), ("string", 4), ("coll", 4), ("access", 4), ("builtin", 5), ("mixed", 4),
-              ("calls", 5), ("inlit", 6), ("rng", 5), ("nest", 8), ("dyn", 5)],
+              ("calls", 5), ("inlit", 6), ("rng", 5), ("nest", 8), ("dyn", 5), ("pat", 5), ("inrng", 7)],
     "thorough": [("arith", 5), ("logic", 5), ("string", 5), ("coll", 5), ("access", 5), ("builtin", 6), ("mixed", 5),
-                 ("calls", 6), ("inlit", 7), ("rng", 6), ("nest", 9), ("dyn", 6)],
+                 ("calls", 6), ("inlit", 7), ("rng", 6), ("nest", 9), ("dyn", 6), ("pat", 6), ("inrng", 8)],
 }
 EVAL_ASSUME = ["harness Abs/Concretize projection (harness/val.go) is faithful",
                "TLC evaluates Sem!Eval as written",
@@ -494,6 +494,8 @@ def stages_C06(tier):
                  mc_vm_cfg("alloc", 3 if tier == "quick" else 4, invariants=("Conforms", "BudgetBounds", "RunsClean")),
                  kind="mc", workers=vf.NCPU),
            Stage("alloc-n%d" % n, "MC_Expr", gen_cfg("alloc", n), "C06", modes="struct:noopt,none:noopt,struct:opt")]
+    # a literal range larger than the budget, evaluated or not: refused by the run that evaluates it, never before
+    out.append(Stage("bigrange-n6", "MC_Expr", gen_cfg("bigrng", 6), "C06", modes="struct:noopt,struct:opt,none:opt"))
     out.append(Stage("alloc-sim", "MC_Expr", gen_cfg("alloc", 10, maxclosure=3), "C06", modes="struct:noopt,none:noopt,struct:opt",
                      simulate=200 if tier == "quick" else 2000, depth=12, warm=False))
     return out
@@ -661,7 +663,10 @@ def check_C18(tier):
 # C09, C10
 
 def stages_C09(tier):
-    return stages_variants("C09", "ptr:opt,ptr:noopt,map:opt", tier)
+    out = stages_variants("C09", "ptr:opt,ptr:noopt,map:opt", tier)
+    # option sets with several candidates per operator (OpTable.tla): recompiling never changes the program
+    out.append(Stage("tables-determinism", "OpTable", optable_cfg(3 if tier == "quick" else 4), "C09M", modes="struct:opt", timeout=2400))
+    return out
 
 
 C09_RULE = ("the expressions and environment assignments of the C01 corpora; each source compiled twice with the same "
@@ -691,6 +696,13 @@ def stages_C10(tier):
         out.append(Stage("optroot-%s-n%d" % (fam, n), "MC_Opt",
                          gen_cfg(fam, n, emit="optroot", invariants=("EmitOptRoot",), extra={"OptDevs": ("<-", "NoDevs")}), "C10",
                          modes="struct:opt", timeout=1800))
+    # the clients of the walk named by the property: the operator patcher reaches every occurrence wherever it sits
+    # (arguments of any parameter type, branches, closures, bounds) and whatever was walked before it
+    out.append(Stage("clients-overload-n4", "MC_Expr", gen_cfg("ovl", 4, emit="ovl", invariants=("EmitOvl", "OvlTyped")), "C17",
+                     modes="struct:noopt,struct:opt", timeout=2400))
+    out.append(Stage("clients-overload-args-n5", "MC_Expr", gen_cfg("ovlarg", 5, emit="ovl", invariants=("EmitOvl", "OvlTyped")), "C17",
+                     modes="struct:noopt,struct:opt", timeout=2400))
+    out.append(Stage("clients-tables", "OpTable", optable_cfg(2 if tier == "quick" else 3), "C17M", modes="struct:opt", timeout=2400))
     for fam in ("mixed", "coll", "builtin"):
         out.append(Stage("walk-%s-sim" % fam, "MC_Expr",
                          gen_cfg(fam, 12, maxclosure=3, emit="walk", invariants=("EmitWalk", "WalkBalanced")), "C10",
@@ -727,6 +739,8 @@ def stages_C17(tier):
     return [Stage("tables-%d" % (3 if tier == "quick" else 4), "OpTable", optable_cfg(3 if tier == "quick" else 4), "C17M",
                   modes="struct:opt,struct:noopt,ptr:opt", timeout=2400),
             Stage("ovl-n%d" % n, "MC_Expr", gen_cfg("ovl", n, emit="ovl", invariants=("EmitOvl", "OvlTyped")), "C17",
+                  modes=modes, timeout=2400),
+            Stage("ovl-args-n%d" % n, "MC_Expr", gen_cfg("ovlarg", n, emit="ovl", invariants=("EmitOvl", "OvlTyped")), "C17",
                   modes=modes, timeout=2400),
             Stage("ovl-branches-n%d" % (n + 1), "MC_Expr",
                   gen_cfg("ovlb", n + 1, emit="ovl", invariants=("EmitOvl", "OvlTyped")), "C17", modes=modes, timeout=2400),
@@ -1004,7 +1018,7 @@ def check_C04(tier):
 # C16: member resolution (Resolve.tla) against generated Go environment types
 
 def names_cfg(maxmembers):
-    return vf.cfg_text({"MaxMembers": maxmembers, "NamesEmit": "cases"}, invariants=("ShadowingIsShallowest", "EmitNames"))
+    return vf.cfg_text({"MaxMembers": maxmembers, "NamesEmit": "cases"}, invariants=("ShadowingIsShallowest", "EmitNames", "EmitMaps"))
 
 
 def names_stage(name, maxmembers):
@@ -1076,12 +1090,36 @@ def race_stage(name, family, n, modes, stride):
             fail, summ, log = os.path.join(d, "fail.ndjson"), os.path.join(d, "sum.json"), os.path.join(d, "race")
             env = vf.goenv()
             env["GORACE"] = "halt_on_error=0 exitcode=0 log_path=%s history_size=2" % log
-            p = subprocess.run([rbin, "replay", "-prop", "C08R", "-in", cases, "-fail", fail, "-sum", summ, "-modes", modes,
-                                "-stride", str(stride)], capture_output=True, text=True, timeout=3000, env=env)
+            cmd = [rbin, "replay", "-prop", "C08R", "-in", cases, "-fail", fail, "-sum", summ, "-modes", modes, "-stride", str(stride)]
+            p = subprocess.run(cmd, capture_output=True, text=True, timeout=3000, env=env)
+            crash = None
             if p.returncode != 0:
-                raise vf.Infra("race harness failed rc=%d\n%s" % (p.returncode, (p.stdout + p.stderr)[-3000:]))
-            sm = json.load(open(summ))
-            fs = vf.load_failures(fail)
+                # The Go runtime itself ends the process when it sees a map read and written by several goroutines at
+                # once.  Inside the library that is what C08 excludes: it is a verdict only if it happens again in a second
+                # process and the dying goroutine stands in the library; anything else is an infrastructure failure.
+                def fatal(out):
+                    m = re.search(r"fatal error: concurrent map [^\n]*", out)
+                    if not m:
+                        return None
+                    first = out[m.start():].split("\n\ngoroutine ", 2)
+                    top = "\n\ngoroutine ".join(first[:2])
+                    return (m.group(0), top[:1800]) if "github.com/antonmedv/expr" in top else None
+                f1 = fatal(p.stdout + p.stderr)
+                if f1 is None:
+                    raise vf.Infra("race harness failed rc=%d\n%s" % (p.returncode, (p.stdout + p.stderr)[-3000:]))
+                p2 = subprocess.run(cmd, capture_output=True, text=True, timeout=3000, env=env)
+                f2 = fatal(p2.stdout + p2.stderr) if p2.returncode != 0 else None
+                if f2 is None:
+                    raise vf.Infra("the race harness died once of '%s' and not when run again\n%s" % (f1[0], f1[1]))
+                crash = f2
+            if crash:
+                sm = {"prop": "C08", "cases": 0, "executions": 2, "programs": 0, "failures": 0, "skipped": {}, "stats": {},
+                      "samples": [], "nontrivial": 0}
+                fs = [{"why": "fatal-concurrent-map-access", "src": "(free-running goroutines over the corpus %s)" % name, "mode": modes,
+                       "got": {"err": crash[1]}, "tags": [crash[0] + " (the process died; reproduced in a second process)"]}]
+            else:
+                sm = json.load(open(summ))
+                fs = vf.load_failures(fail)
             # reports of the race detector that name a frame of the library
             reports = []
             for fn in os.listdir(d):
